@@ -1670,8 +1670,11 @@ class Executor:
         for k, r in enumerate(callee.requires):
             g = sub.spec_bool(r, cst)
             if not spec:
-                self.oblige(st, "requires@call", "%s.%d@%s" % (callee.qualname, k, self.line_tag(n)), g, n,
-                            desc="precondition of %s: %s" % (callee.qualname, r), extra_hyps=cst.pc[len(st.pc):])
+                o = self.oblige(st, "requires@call", "%s.%d@%s" % (callee.qualname, k, self.line_tag(n)), g, n,
+                                desc="precondition of %s: %s" % (callee.qualname, r), extra_hyps=cst.pc[len(st.pc):])
+                why = getattr(self.c, "options", {}).get("assume_call_requires", {}).get((callee.qualname, k))
+                if o is not None and why:
+                    o.assumed = why
         # aliasing precondition: modified params must not alias other array params
         # havoc modifies
         for m in callee.modifies:
